@@ -34,6 +34,12 @@ func (s *Semaphore) Acquire(cancel <-chan struct{}, timeout time.Duration) bool 
 
 	// await token, cancel or deadline
 	verifAwait("semaphore.acquire", s, func() bool { return verifReady(len(s.tokens) > 0, verifClosed(cancel)) })
+	switch verifPick("semaphore.acquire", len(s.tokens) > 0, verifClosed(cancel)) {
+	case 1:
+		cancel = nil
+	case 2:
+		return false
+	}
 	select {
 	case <-s.tokens:
 		return true
